@@ -1,4 +1,5 @@
 //! vmc <PROPERTY> <quick|thorough> [--replay FILE]
+mod c03;
 mod c04;
 
 use vcore::ev::Tier;
@@ -29,6 +30,7 @@ fn main() {
   vcore::quiet_panics();
   let ctx = Ctx { tier, replay };
   let code = match prop {
+    "C03" => c03::run(&ctx),
     "C04" => c04::run(&ctx),
     _ => {
       eprintln!("unknown property {prop}");
